@@ -128,6 +128,9 @@ class Schema:
             return "wrName"
         if t in (ld.CurrentLocalDate, ld.CurrentLocalTime, ld.CurrentProtocolServicesSupported):
             return "computed"
+        import bacpypes.service.cov as sc
+        if t is sc.ActiveCOVSubscriptions:
+            return "computed"
         raise TranslatorError("property class %s is not modelled" % t.__name__)
 
     def prop(self, prop):
